@@ -134,6 +134,7 @@ def install(ctx):
     import geometer.point as P
 
     core.wrap_function(P, "_join_meet_duality", post_jm)
+    jm.install_public(post_jm)
     core.wrap_method(P.LineTensor, "is_coplanar", post_is_coplanar)
 
 
@@ -300,6 +301,7 @@ def g_single(ctx, rng, i):
     _try(fn, *args)
     if kind in (8, 9):
         _try(args[0].is_coplanar, args[1])
+    _method_form(g, fn, args)
     # the very same object passed twice is the plainest coincidence (function and method forms)
     x = args[int(rng.integers(len(args)))]
     if type(x).__name__ in ("Point", "Line", "Plane"):
@@ -310,6 +312,16 @@ def g_single(ctx, rng, i):
             y = args[0] if args[1] is x else args[1]
             _try(f2, x, y, x)
             _try(f2, y, x, x)
+
+
+def _method_form(g, fn, args):
+    """a.join(b, ...) / a.meet(b): the method entry points with the same arguments."""
+    name = "join" if fn is g.join else "meet" if fn is g.meet else None
+    if name is None or not hasattr(args[0], name):
+        return
+    if name == "meet" and len(args) != 2:
+        return
+    _try(getattr(args[0], name), *args[1:])
 
 
 def _stack(g, objs):
@@ -356,6 +368,7 @@ def g_collection(ctx, rng, i):
     _try(fn, *args)
     if kind in (8, 9):
         _try(args[0].is_coplanar, args[1])
+    _method_form(g, fn, args)
 
 
 GROUPS = [
